@@ -29,7 +29,7 @@ Domain == [
     nSteps     |-> {"none", "1", "3"},
     nMaxSteps  |-> {"none", "2", "40"},
     evaluation |-> {"scalar", "vector", "blobs"},
-    bounds     |-> {"none", "periodic", "reflective", "both"},
+    bounds     |-> {"none", "periodic", "reflective", "both", "emptylists"},   \* emptylists: periodic = [] and reflective = [] (built programmatically)
     pool       |-> {"none", "one", "two", "like"},
     saveEvery  |-> {"none", "1", "3"},
     nParticles |-> {"small", "default"},
